@@ -124,6 +124,84 @@ def gen_cases(rng, tier, n_classes):
     return cases
 
 
+def crosstype_cases():
+    """directed: homogeneous Array / Deque / Tuple (and Map values) over each scalar kind, holding ==-equal
+    elements of DIFFERENT Python types (1 == 1.0 == True): every element is decided on its own"""
+    from fractions import Fraction
+    fl = gen.fl
+    one, zero, two = fl(Fraction(1)), fl(Fraction(0)), fl(Fraction(2))
+    groups = [[1, one], [one, 1], [True, 1], [1, True], [0, 3, zero], [False, True, zero], [2, two], [zero, False],
+              [1, 1, one, True], ["1", 1], [1, "1"], [one, one, 1]]
+    cases = []
+    ci = 0
+    for item in ({"k": "integer"}, {"k": "boolean"}, {"k": "number"}, {"k": "float"}, {"k": "string"}, {"k": "anything"},
+                 {"k": "integer", "min": [0, 1]}, {"k": "enumLit", "values": [1, "a"]}):
+        for cont in ("l", "q", "t", "mapval"):
+            if cont == "mapval":
+                fd = {"k": "mapOf", "key": {"k": "string"}, "val": dict(item)}
+            elif cont == "t":
+                fd = {"k": "tupleOf", "item": dict(item)}
+            else:
+                fd = {"k": "seqOf", "item": dict(item)}
+                if cont == "q":
+                    fd["seq"] = "deque"
+            cls = {"k": "struct", "name": f"X{ci}", "required": ["a"], "addl": False, "fields": [["a", fd]]}
+            ci += 1
+            fix_accepts(cls)
+            for g in groups:
+                v = {"m": [[f"k{i}", x] for i, x in enumerate(g)]} if cont == "mapval" else {cont: list(g)}
+                kw = [["a", v]]
+                cases.append({"suite": "construct", "cls": cls, "kw": kw, "stream": "crosstype", "re": gen.re_table(cls, kw)})
+    return cases
+
+
+def default_cases(rng, tier, n_classes):
+    """classes whose non-required fields carry DEFAULTS - valid ones, boundary neighbours of the field's
+    constraints and ==-equal values of another type (a falsy default is not checked when the class is defined:
+    it must be checked when it is applied) - constructed with the field left out / supplied / None, and sent
+    through entry-point chains.  One possibly-invalid thing per case, so the error class is determined."""
+    cases = []
+    for ci in range(n_classes):
+        dg = gen.DeclGen(rng, max_depth=rng.choice([1, 1, 2]))
+        vg = gen.ValGen(rng)
+        cls = dg.class_decl(0, n_fields=rng.choice([1, 2, 2, 3]))
+        cls["name"] = f"D{ci}"
+        fix_accepts(cls)
+        # the first field becomes the defaulted one
+        name, fd = cls["fields"][0]
+        if fd["k"] not in ("integer", "number", "float", "string", "boolean", "enumLit", "enumCls"):
+            continue                  # scalar defaults (collection defaults are callables; a StructureReference takes none)
+        cls["required"] = [r for r in cls["required"] if r != name]
+        pool = [v for v in vg.boundary(fd) if v is not None and v is not gen.NOVALUE]
+        falsy = [v for v in pool if v in (0, "", False) or v == {"l": []} or (isinstance(v, dict) and "f" in v and v["f"][0] == 0)]
+        r = rng.random()
+        if r < 0.4 and falsy:
+            dv = rng.choice(falsy)
+        elif r < 0.6 and pool:
+            dv = rng.choice(pool)
+        else:
+            dv = vg.valid(fd)
+        if dv is gen.NOVALUE or dv is None:
+            continue
+        cls["defaults"] = [[name, dv]]
+        base = vg.valid_kw(cls)
+        if base is gen.NOVALUE:
+            continue
+        others = [kv for kv in base if kv[0] != name]
+        kws = [("default-applied", others)]
+        v = vg.valid(fd)
+        if v is not gen.NOVALUE:
+            kws.append(("default-overridden", others + [[name, v]]))
+        kws.append(("default-none", others + [[name, None]]))
+        for tag, kw in kws:
+            case = {"suite": "construct", "cls": cls, "kw": kw, "stream": tag, "re": None}
+            if tag == "default-applied" or rng.random() < 0.3:
+                case["chain"] = gen_chain(rng, vg, cls, rng.randint(1, 3 if tier == "quick" else 5))
+            case["re"] = gen.re_table(cls, kw, case.get("chain", []))
+            cases.append(case)
+    return cases
+
+
 # ------------------------------------------------------------------ real code
 
 def preload_chain(chain, ctx):
